@@ -221,10 +221,29 @@ static void sc_mt(int variant) {	// threaded coders under the default schedule o
 	if (variant == 0) { lzma_mt mt = { .threads = 2, .block_size = 100, .filters = ch_lzma2, .check = LZMA_CHECK_CRC32 };
 		if (chk(lzma_stream_encoder_mt(&s, &mt), LZMA_OK, LZMA_OK, "lzma_stream_encoder_mt")) goto out;
 		if (chk(pump(&s, plain, 300, 0, LZMA_FINISH), LZMA_STREAM_END, LZMA_STREAM_END, "lzma_code(mt encoder)")) goto out; }
-	else { lzma_mt mt = { .threads = 2, .memlimit_threading = UINT64_MAX, .memlimit_stop = UINT64_MAX };
+	else if (variant == 1) { lzma_mt mt = { .threads = 2, .memlimit_threading = UINT64_MAX, .memlimit_stop = UINT64_MAX };
 		if (chk(lzma_stream_decoder_mt(&s, &mt), LZMA_OK, LZMA_OK, "lzma_stream_decoder_mt")) goto out;
 		if (chk(pump(&s, comp_xz2, n_xz2 / 2, 0, LZMA_FINISH), LZMA_STREAM_END, LZMA_STREAM_END, "lzma_code(mt decoder)")) goto out;
 		if (s.total_out != 300 || memcmp(obuf, plain, 300)) MISBEHAVE("mt decoder output wrong"); }
+	else if (variant == 2 || variant == 3) {	// threaded encoder, then the same handle re-initialised with other thread count / block size (2: after a finished Stream, 3: mid-Block)
+		lzma_mt mt = { .threads = 2, .block_size = 100, .filters = ch_lzma2, .check = LZMA_CHECK_CRC32 };
+		if (chk(lzma_stream_encoder_mt(&s, &mt), LZMA_OK, LZMA_OK, "lzma_stream_encoder_mt")) goto out;
+		if (variant == 2) { if (chk(pump(&s, plain, 300, 0, LZMA_FINISH), LZMA_STREAM_END, LZMA_STREAM_END, "lzma_code(mt encoder)")) goto out; }
+		else { s.next_in = plain; s.avail_in = 150; s.next_out = obuf; s.avail_out = 20; if (chk(lzma_code(&s, LZMA_RUN), LZMA_OK, LZMA_OK, "lzma_code(mt encoder, partial)")) goto out; }
+		lzma_mt mt2 = { .threads = 3, .block_size = 120, .filters = ch_lzma2, .check = LZMA_CHECK_CRC64 };
+		if (chk(lzma_stream_encoder_mt(&s, &mt2), LZMA_OK, LZMA_OK, "lzma_stream_encoder_mt(re-init)")) goto out;
+		if (chk(pump(&s, plain, 300, 0, LZMA_FINISH), LZMA_STREAM_END, LZMA_STREAM_END, "lzma_code(mt encoder after re-init)")) goto out;
+		{ size_t n = s.total_out; static unsigned char keep[8192], back[512]; memcpy(keep, obuf, n); uint64_t ml = UINT64_MAX; size_t ip = 0, op = 0;
+		  if (lzma_stream_buffer_decode(&ml, 0, NULL, keep, &ip, n, back, &op, sizeof back) != LZMA_OK || op != 300 || memcmp(back, plain, 300)) MISBEHAVE("mt encoder output after re-init does not decode"); } }
+	else {	// threaded decoder, then re-initialised with another thread count (4: after the end, 5: mid-file)
+		lzma_mt mt = { .threads = 2, .memlimit_threading = UINT64_MAX, .memlimit_stop = UINT64_MAX };
+		if (chk(lzma_stream_decoder_mt(&s, &mt), LZMA_OK, LZMA_OK, "lzma_stream_decoder_mt")) goto out;
+		if (variant == 4) { if (chk(pump(&s, comp_xz2, n_xz2 / 2, 0, LZMA_FINISH), LZMA_STREAM_END, LZMA_STREAM_END, "lzma_code(mt decoder)")) goto out; }
+		else { s.next_in = comp_xz2; s.avail_in = n_xz2 / 4; s.next_out = obuf; s.avail_out = 10; if (chk(lzma_code(&s, LZMA_RUN), LZMA_OK, LZMA_OK, "lzma_code(mt decoder, partial)")) goto out; }
+		lzma_mt mt2 = { .threads = 3, .memlimit_threading = UINT64_MAX, .memlimit_stop = UINT64_MAX };
+		if (chk(lzma_stream_decoder_mt(&s, &mt2), LZMA_OK, LZMA_OK, "lzma_stream_decoder_mt(re-init)")) goto out;
+		if (chk(pump(&s, comp_xz2, n_xz2 / 2, 0, LZMA_FINISH), LZMA_STREAM_END, LZMA_STREAM_END, "lzma_code(mt decoder after re-init)")) goto out;
+		if (s.total_out != 300 || memcmp(obuf, plain, 300)) MISBEHAVE("mt decoder output wrong after re-init"); }
 out:	reuse_after(&s);
 }
 #endif
@@ -236,7 +255,8 @@ static void add(const char *nm, int kind, int a, int b, int c, int d) { snprintf
 static void build_table(int thorough) {
 	char nm[96];
 #ifdef C10_SCHED
-	add("mt-encoder(2 threads,3 blocks)", 10, 0, 0, 0, 0); add("mt-decoder(2 threads,3 blocks)", 10, 1, 0, 0, 0); (void)thorough; (void)nm;
+	add("mt-encoder(2 threads,3 blocks)", 10, 0, 0, 0, 0); add("mt-decoder(2 threads,3 blocks)", 10, 1, 0, 0, 0);
+	add("mt-encoder finished, re-init(3 threads, other block size)", 10, 2, 0, 0, 0); add("mt-encoder mid-Block, re-init(3 threads, other block size)", 10, 3, 0, 0, 0); add("mt-decoder finished, re-init(3 threads)", 10, 4, 0, 0, 0); add("mt-decoder mid-file, re-init(3 threads)", 10, 5, 0, 0, 0); (void)thorough; (void)nm;
 #else
 	for (int k = 0; k < K_NKINDS; k++) { snprintf(nm, sizeof nm, "init:%s", KN[k]); add(nm, 1, k, 0, 0, 0); }
 	for (int k = 0; k < K_NKINDS; k++) { snprintf(nm, sizeof nm, "job:%s", KN[k]); add(nm, 2, k, 0, 0, 0); snprintf(nm, sizeof nm, "job-7byte-input:%s", KN[k]); add(nm, 2, k, 7, 0, 0); }
